@@ -166,6 +166,9 @@ func check(c Case, st *core.Stats) error {
 		if tz > 0 {
 			st.NonTrivial("zeros-removed")
 		}
+		if tz > 256 {
+			st.Class("more-than-256-trailing-zeros")
+		}
 		wantC := new(big.Int).Quo(xb, ref.Pow10(int64(tz)))
 		if d.Form != apd.Finite || d.Negative != c.X.Neg || d.Coeff.MathBigInt().Cmp(wantC) != 0 || int64(d.Exponent) != int64(c.X.Exp)+int64(tz) || n != tz {
 			return fmt.Errorf("Decimal.Reduce(%v) into %v (alias=%v) = %s n=%d; want coeff %s exp %d n=%d", c.X, c.Dirty, c.Alias, core.Show(d), n, wantC, int64(c.X.Exp)+int64(tz), tz)
